@@ -22,6 +22,11 @@ into its callers before any rule looks at the code.  The baseline inventory of f
 Anything that does not fit is left alone (the rules then see the call, as before)."""
 import ast
 import copy
+
+
+def _clone(node):
+    from .loader import clone
+    return clone(node)
 import json
 import os
 
@@ -115,8 +120,8 @@ def to_tail(stmts, budget=None):
             out.append(st)
             continue
         if isinstance(st, ast.If):
-            new = ast.If(test=st.test, body=to_tail(st.body + ([] if _ends(st.body) else copy.deepcopy(rest)), budget),
-                         orelse=to_tail(st.orelse + ([] if _ends(st.orelse) else copy.deepcopy(rest)), budget))
+            new = ast.If(test=st.test, body=to_tail(st.body + ([] if _ends(st.body) else _clone(rest)), budget),
+                         orelse=to_tail(st.orelse + ([] if _ends(st.orelse) else _clone(rest)), budget))
             ast.copy_location(new, st)
             out.append(new)
             return out
@@ -128,10 +133,10 @@ def to_tail(stmts, budget=None):
                 body, orelse = st.body, []
             else:
                 body = st.body
-                orelse = to_tail(st.orelse + copy.deepcopy(rest), budget)
+                orelse = to_tail(st.orelse + _clone(rest), budget)
             handlers = []
             for h in st.handlers:
-                nh = ast.ExceptHandler(type=h.type, name=h.name, body=to_tail(h.body + ([] if _ends(h.body) else copy.deepcopy(rest)), budget))
+                nh = ast.ExceptHandler(type=h.type, name=h.name, body=to_tail(h.body + ([] if _ends(h.body) else _clone(rest)), budget))
                 ast.copy_location(nh, h)
                 handlers.append(nh)
             new = ast.Try(body=body, handlers=handlers, orelse=orelse, finalbody=[])
@@ -230,7 +235,7 @@ class _Subst(ast.NodeTransformer):
 
     def visit_Name(self, node):
         if node.id in self.mapping and isinstance(node.ctx, ast.Load):
-            return copy.deepcopy(self.mapping[node.id])
+            return _clone(self.mapping[node.id])
         if node.id in self.rename:
             return ast.copy_location(ast.Name(id=self.rename[node.id], ctx=node.ctx), node)
         return node
@@ -247,7 +252,7 @@ class _Subst(ast.NodeTransformer):
             new_args = []
             for a in node.args:
                 if isinstance(a, ast.Starred) and isinstance(a.value, ast.Name) and a.value.id == self.vararg:
-                    new_args.extend(copy.deepcopy(v) for v in self.varvals)
+                    new_args.extend(_clone(v) for v in self.varvals)
                 else:
                     new_args.append(a)
             node.args = new_args
@@ -313,7 +318,7 @@ class Inliner:
                 if pre is None:
                     return None
                 tmp = tag + p
-                pre.append(ast.Assign(targets=[ast.Name(id=tmp, ctx=ast.Store())], value=copy.deepcopy(a)))
+                pre.append(ast.Assign(targets=[ast.Name(id=tmp, ctx=ast.Store())], value=_clone(a)))
                 mapping[p] = ast.Name(id=tmp, ctx=ast.Load())
                 if p in assigned_params:
                     mapping.pop(p)
@@ -327,7 +332,7 @@ class Inliner:
                 if pre is None:
                     return None
                 tmp = f"{tag}v{len(vv)}"
-                pre.append(ast.Assign(targets=[ast.Name(id=tmp, ctx=ast.Store())], value=copy.deepcopy(a)))
+                pre.append(ast.Assign(targets=[ast.Name(id=tmp, ctx=ast.Store())], value=_clone(a)))
                 vv.append(ast.Name(id=tmp, ctx=ast.Load()))
         rename = {l: tag + l for l in h.locals}
         if h.self_name and h.self_name != "self":
@@ -380,7 +385,7 @@ class Inliner:
                 sub = me._bind(h, n, None)
                 if sub is None:
                     return n
-                e = sub.visit(copy.deepcopy(h.tail[0].value))
+                e = sub.visit(_clone(h.tail[0].value))
                 me.count += 1
                 return ast.copy_location(e, n)
 
@@ -444,7 +449,7 @@ class Inliner:
         sub = self._bind(h, call, pre)
         if sub is None:
             return None
-        body = [sub.visit(copy.deepcopy(s)) for s in h.tail]
+        body = [sub.visit(_clone(s)) for s in h.tail]
         whole = getattr(st, "value", None) is call
         if h.kind == "straight":
             ret = body[-1].value
@@ -456,9 +461,9 @@ class Inliner:
             if isinstance(st, ast.Assign):
                 if len(st.targets) != 1:
                     return None
-                mk = lambda e: ast.Assign(targets=[copy.deepcopy(st.targets[0])], value=e)  # noqa: E731
+                mk = lambda e: ast.Assign(targets=[_clone(st.targets[0])], value=e)  # noqa: E731
             elif isinstance(st, ast.AnnAssign):
-                mk = lambda e: ast.Assign(targets=[copy.deepcopy(st.target)], value=e)  # noqa: E731
+                mk = lambda e: ast.Assign(targets=[_clone(st.target)], value=e)  # noqa: E731
             elif isinstance(st, ast.Return):
                 mk = lambda e: ast.Return(value=e)  # noqa: E731
             elif isinstance(st, ast.Expr):
@@ -1021,7 +1026,7 @@ class GenInliner:
             if pure(a_) and p_ not in h.locals and isinstance(a_, (ast.Constant, ast.Name)):
                 mapping[p_] = a_
             else:
-                pre.append(ast.Assign(targets=[ast.Name(id=tag + p_, ctx=ast.Store())], value=copy.deepcopy(a_)))
+                pre.append(ast.Assign(targets=[ast.Name(id=tag + p_, ctx=ast.Store())], value=_clone(a_)))
                 if p_ in h.locals:
                     pass  # renamed below together with the other locals
                 else:
@@ -1030,8 +1035,8 @@ class GenInliner:
         if h.self_name and h.self_name != "self":
             mapping[h.self_name] = ast.Name(id="self", ctx=ast.Load())
         sub = _Subst(mapping, rename)
-        prefix = [sub.visit(copy.deepcopy(s_)) for s_ in h.prefix]
-        loop = sub.visit(copy.deepcopy(h.loop))
+        prefix = [sub.visit(_clone(s_)) for s_ in h.prefix]
+        loop = sub.visit(_clone(h.loop))
 
         def place(stmts):
             out = []
@@ -1064,7 +1069,7 @@ class GenInliner:
             h = self._target(st.iter, cls_name, local_names)
             if h is None or (h.free & local_names) or _loop_level_jumps(st.body):
                 return None
-            return self._instantiate(h, st.iter, lambda v, tag: [ast.Assign(targets=[copy.deepcopy(st.target)], value=v)] + copy.deepcopy(st.body), st)
+            return self._instantiate(h, st.iter, lambda v, tag: [ast.Assign(targets=[_clone(st.target)], value=v)] + _clone(st.body), st)
         # T = [ELT for X in g(..) if C] / T = list(g(..)) / return <either>
         if isinstance(st, ast.Assign) and len(st.targets) == 1 and isinstance(st.targets[0], ast.Name):
             tname, val, ret = st.targets[0].id, st.value, False
@@ -1095,11 +1100,11 @@ class GenInliner:
                 return [ast.Expr(value=ast.Call(func=ast.Attribute(value=ast.Name(id=tname, ctx=ast.Load()), attr="append", ctx=ast.Load()), args=[v], keywords=[]))]
             ren = {n.id: tag + "c_" + n.id for n in ast.walk(target) if isinstance(n, ast.Name)}
             r = _Rename2(ren)
-            out = [ast.Assign(targets=[r.visit(copy.deepcopy(target))], value=v)]
+            out = [ast.Assign(targets=[r.visit(_clone(target))], value=v)]
             app = ast.Expr(value=ast.Call(func=ast.Attribute(value=ast.Name(id=tname, ctx=ast.Load()), attr="append", ctx=ast.Load()),
-                                          args=[r.visit(copy.deepcopy(elt))], keywords=[]))
+                                          args=[r.visit(_clone(elt))], keywords=[]))
             if ifs:
-                test = r.visit(copy.deepcopy(ifs[0])) if len(ifs) == 1 else ast.BoolOp(op=ast.And(), values=[r.visit(copy.deepcopy(c)) for c in ifs])
+                test = r.visit(_clone(ifs[0])) if len(ifs) == 1 else ast.BoolOp(op=ast.And(), values=[r.visit(_clone(c)) for c in ifs])
                 out.append(ast.If(test=test, body=[app], orelse=[]))
             else:
                 out.append(app)
@@ -1263,7 +1268,7 @@ def normalise_local_lambdas(tree, known):
             class R(ast.NodeTransformer):
                 def visit_Name(self, node):
                     if node.id == g.name and isinstance(node.ctx, ast.Load):
-                        return ast.copy_location(copy.deepcopy(lam), node)
+                        return ast.copy_location(_clone(lam), node)
                     return node
 
             new_body = []
@@ -1300,6 +1305,9 @@ def normalise_program(trees):
                 for ch_ in ast.iter_child_nodes(x_):
                     ch_._parent = x_
             k_ = normalise_local_lambdas(tree, set(known0))
+            for x_ in ast.walk(tree):
+                if hasattr(x_, "_parent"):
+                    del x_._parent
             if k_:
                 reshaped[path] = reshaped.get(path, 0) + k_
     inv = inventory()
